@@ -22,23 +22,24 @@ Section SReady.
   Lemma items_now_le : forall l : script A, (length (items_now l) <= length (items l))%nat.
   Proof. induction l as [|[a| |] r IH]; simpl; lia. Qed.
 
-  (* only the upper bound of the stream's size_hint carries over *)
-  Lemma sready_hint_upper : truthful uh -> forall l,
-    match snd (hint (sready_m uh) l) with Some u => len (items_now l) <= u | None => True end.
+  (* size_hint = (0, stream upper): brackets what is delivered before the reported end *)
+  Lemma sready_hint_ok : truthful uh -> forall l,
+    hint_ok (hint (sready_m uh) l) (len (items_now l)).
   Proof.
-    intros T l. destruct (T l) as [_ U]. simpl. pose proof (items_now_le l).
-    unfold len, rem in *. destruct (snd (uh l)); auto. lia.
+    intros T l. destruct (T l) as [_ U]. pose proof (items_now_le l).
+    unfold hint_ok, len, rem in *; simpl. split; [lia|]. destruct (snd (uh l)); [lia|exact I].
+  Qed.
+
+  (* StreamReady has no FusedPull impl: the stream may resume after a Pending *)
+  Theorem sready_spec : truthful uh ->
+    C11_spec (sready_m uh) always never (fun l => items_now l).
+  Proof.
+    intros T. apply mk_spec.
+    - intros l _. apply sready_runs.
+    - intros l l' _ [].
+    - intros l _. apply sready_hint_ok; auto.
   Qed.
 End SReady.
-
-(* the lower bound does not: a stream that is Pending now, with one item to come *)
-Lemma sready_hint_lower_refuted :
-  exists (uh : script N -> hintT) (l : script N),
-    truthful uh /\ ~ hint_ok (hint (sready_m uh) l) (len (items_now l)).
-Proof.
-  exists (slack_hint 0 (Some 0)), [Pend; Rdy 4]. split; [apply slack_truthful|].
-  unfold hint_ok. vm_compute. intros [H _]. apply H. reflexivity.
-Qed.
 
 (* ------------------------------------------------------------------ flat_map_stream / flatten_stream *)
 Section FMS.
@@ -198,27 +199,26 @@ Section FMA.
     apply fma_dead. exact D.
   Qed.
 
-  (* size_hint is right as long as no in-flight future holds an item *)
-  Lemma fma_hint_ok : truthful uh -> forall st, fut_out (fst st) = [] ->
-    hint_ok (hint m st) (len (fma_ref st)).
+  (* size_hint counts the item an in-flight future may still deliver *)
+  Lemma fma_hint_ok : truthful uh -> forall st, hint_ok (hint m st) (len (fma_ref st)).
   Proof.
-    intros T [cur l] H. unfold fma_ref. simpl fst in *. simpl snd. rewrite H. simpl.
-    destruct (T l) as [_ U]. pose proof (filter_map_ref_length (fun a => snd (f a)) (items l)).
-    unfold hint_ok, len, rem in *; simpl. unfold fma_hint; simpl. split; [lia|].
-    destruct (snd (uh l)); [lia|exact I].
+    intros T [cur l]. destruct (T l) as [_ U].
+    pose proof (filter_map_ref_length (fun a => snd (f a)) (items l)).
+    unfold hint_ok, fma_ref, len, rem in *. simpl. unfold fma_hint; simpl. rewrite app_length.
+    split; [lia|]. destruct cur as [[k [b|]]|]; simpl;
+      destruct (snd (uh l)) as [u|]; auto; unfold chk_add;
+      try (destruct (u + 1 <=? umax); [|exact I]); lia.
+  Qed.
+
+  Theorem fma_spec : truthful uh ->
+    C11_spec m always (fun st => fused_b (snd st) = true) fma_ref.
+  Proof.
+    intros T. apply mk_spec.
+    - intros st _. apply fma_runs.
+    - intros st s' _ F. apply fma_fused; auto.
+    - intros st _. apply fma_hint_ok; auto.
   Qed.
 End FMA.
-
-(* ... and wrong otherwise: FilterMapAsync::size_hint forgets the item of the in-flight future *)
-Lemma fma_hint_refuted :
-  exists (uh : script N -> hintT) (f : N -> nat * option N) (st : fma_st N N),
-    truthful uh /\ (exists st0, st = snd (pull1 (fma_m uh f) st0)) /\
-    ~ hint_ok (hint (fma_m uh f) st) (len (fma_ref f st)).
-Proof.
-  exists (slack_hint 0 (Some 0)), (fun x => (2%nat, Some x)), (Some (1%nat, Some 4), []).
-  split; [apply slack_truthful|]. split; [exists (None, [Rdy 4]); reflexivity|].
-  unfold hint_ok. vm_compute. intros [_ H]. apply H. reflexivity.
-Qed.
 
 (* ------------------------------------------------------------------ consuming futures *)
 Fixpoint pend_count {A} (l : script A) : nat :=
@@ -370,19 +370,3 @@ Section Relay.
     - intros l _. apply T.
   Qed.
 End Relay.
-
-(* filter_map_async: everything but the size_hint of states with an item in flight *)
-Theorem fma_spec_partial (A B : Type) (uh : script A -> hintT) (f : A -> nat * option B) :
-  truthful uh ->
-  (forall st, exists st', runs_to (fma_m uh f) st (fma_ref f st) st') /\
-  (forall st n, exists rest, fma_ref f st = emitted (polls (fma_m uh f) n st) ++ rest) /\
-  (forall st s', fused_b (snd st) = true -> pull1 (fma_m uh f) st = (Ended, s') ->
-                 ended_forever (fma_m uh f) s') /\
-  (forall st, fut_out (fst st) = [] -> hint_ok (hint (fma_m uh f) st) (len (fma_ref f st))).
-Proof.
-  intros T. split; [|split; [|split]].
-  - apply fma_runs.
-  - intros st n. destruct (@fma_runs A B uh f st) as [st' R]. exact (emitted_prefix R n).
-  - intros st s'. apply fma_fused.
-  - apply fma_hint_ok. exact T.
-Qed.
